@@ -84,6 +84,10 @@ class ChunkedReader:
 
         idx = buf.getvalue().find(b"\r\n")
         while idx < 0:
+            # a chunk-size line (with its extensions) is protocol data like
+            # the header block: same cap, never buffer without limit
+            if buf.tell() > self.req.max_buffer_headers:
+                raise InvalidChunkSize(buf.getvalue()[:64])
             self.get_data(unreader, buf)
             idx = buf.getvalue().find(b"\r\n")
 
